@@ -1,7 +1,9 @@
 """C03 — the greedy welfare rule follows its definition and exhausts the budget."""
 from __future__ import annotations
 
+import json
 import math
+import random
 from fractions import Fraction as F
 
 from .. import core, history, oracle, rulegen, rules, ruleprops
@@ -142,6 +144,81 @@ def normalised_pairs(ctx, n):
         yield case, cfg
 
 
+def details_stream(ctx, n, compare=True):
+    """analytics=True on the resolute additive fast path: `details.projects` against the model (`Greedy.additiveDetails`, theorems
+    Properties/C03Details) and against the call's own outcome — one entry per project outside the initial allocation, the density
+    as score, a remaining budget exactly for the selected projects, each the previous one minus the cost, never negative; and
+    requesting the details does not change the outcome"""
+    import pabutools.rules as R
+
+    rng = random.Random(ctx.rng.getrandbits(48))
+    lines, info = [], []
+    for _ in range(n):
+        if ctx.budget_s is not None and ctx.elapsed() > ctx.budget_s:
+            break
+        u = rng.random()
+        case = core.gen_tight_election(rng, btypes=("app", "app", "card", "ord")) if u < 0.5 else (core.gen_equalcost_election(rng, btypes=("app", "card")) if u < 0.75 else core.gen_election(rng, m_lo=1, m_hi=6))
+        cfg = rulegen.gen_rule_cfg(rng, case, rules=("greedy",), allow_refuse=False, allow_float=False)
+        if cfg["sat"] not in rules.ADDITIVE_CLASS_SATS:
+            cfg["sat"] = rng.choice([s for s in core.SAT_BY_TYPE[case.btype] if s in rules.ADDITIVE_CLASS_SATS] or ["Cardinality_Sat"])
+        cfg["res"], cfg["additive"] = True, rng.choice([None, True])
+        built = rules.Built(case, multi=cfg.get("multi", False))
+        tie = core.tie_rule(cfg.get("tie", "lexico"), case, built.projs)
+        init = [built.projs[nm] for nm in (cfg.get("init") or [])]
+        kw = dict(sat_class=core.sat_class(cfg["sat"]), tie_breaking=tie, resoluteness=True, initial_budget_allocation=init)
+        if cfg["additive"] is not None:
+            kw["is_sat_additive"] = True
+        ctx.evaluations += 1
+        ctx.count("stream", "fast-path details")
+        sig = {"rule": "greedy", "sat": cfg["sat"], "clause": "details"}
+        try:
+            out = R.greedy_utilitarian_welfare(built.inst, built.prof, analytics=True, **kw)
+            plain = R.greedy_utilitarian_welfare(built.inst, built.prof, **kw)
+        except Exception as e:  # noqa: BLE001
+            ctx.violations.append(violation(f"greedy with analytics raised {e!r}", case, cfg, sig=dict(sig, err=core.err_enum(e))))
+            continue
+        W = [p.name for p in out]
+        if W != [p.name for p in plain]:
+            ctx.violations.append(violation("requesting the details changes the outcome of the greedy rule", case, cfg, impl=W, expected=[p.name for p in plain], sig=sig))
+        ds = getattr(getattr(out, "details", None), "projects", None)
+        if ds is None:
+            ctx.violations.append(violation("analytics=True returned no details", case, cfg, sig=sig))
+            continue
+        rows = []
+        for d in ds:
+            sc = d.score
+            rows.append((d.project.name, "inf" if sc == float("inf") else core.q2s(core.toF(sc)), None if d.remaining_budget is None else core.toF(d.remaining_budget), bool(d.discarded)))
+        names_in = set(cfg.get("init") or [])
+        bought = [nm for nm in W if nm not in names_in]
+        problems = []
+        if sorted(r[0] for r in rows) != sorted(nm for nm in case.names if nm not in names_in):
+            problems.append("the entries are not one per project outside the initial allocation")
+        if [r[0] for r in rows if r[2] is not None] and sorted(r[0] for r in rows if r[2] is not None) != sorted(bought):
+            problems.append("a remaining budget is recorded for other projects than the selected ones")
+        if any((r[2] is None) != r[3] for r in rows):
+            problems.append("`discarded` disagrees with `remaining_budget`")
+        rem = case.budget - sum((case.cost[nm] for nm in names_in), F(0))
+        by_name = {r[0]: r for r in rows}
+        for nm in bought:  # purchase order
+            if nm in by_name and by_name[nm][2] is not None:
+                rem -= case.cost[nm]
+                if by_name[nm][2] != rem or rem < 0:
+                    problems.append(f"remaining budget after {nm} is recorded as {by_name[nm][2]}, the costs say {rem}")
+                    break
+        for what in problems:
+            ctx.violations.append(violation("greedy details: " + what, case, cfg, impl=[list(map(str, r)) for r in rows], expected=bought, sig=sig))
+        if len(bought) >= 2 and len(bought) < len(rows):
+            ctx.nontrivial.add(case.key() + "details" + json.dumps(ruleprops.cfg_json(cfg), sort_keys=True, default=str))
+        if compare:
+            lines.append(rules.model_line(built, cfg) + " details=1")
+            info.append(("ok " + (" ".join(f"{case.rank[r[0]]};{r[1]};{'-' if r[2] is None else core.q2s(r[2])}" for r in rows) or "-"), case, cfg))
+    if compare and lines:
+        for line, o, (impl_s, case, cfg) in zip(lines, core.run_driver(lines), info):
+            if o.strip() != impl_s.strip():
+                ctx.disagreements.append({"line": line, "impl": impl_s, "model": o.strip(), "case": case.to_json(), "cfg": ruleprops.cfg_json(cfg)})
+            ctx.sample(f"{line} -> impl: {impl_s} | model: {o.strip()}", cap=10)
+
+
 def satprofile_pairs(ctx, n):
     """calls that pass sat_profile=: alone (with or without the additivity flag), next to a sat_class naming another measure,
     holding only some voters of the profile argument, or holding no voter at all; and elections WITHOUT voters called in
@@ -182,6 +259,7 @@ def run(ctx):
     items += ruleprops.run_items(ctx, satprofile_pairs(ctx, ctx.scale(1200, 10000)), predicate, nontrivial, compare=False)
     # round 5/6: voter-normalised measures on repeated costs (drawn last)
     items += ruleprops.run_items(ctx, normalised_pairs(ctx, ctx.scale(1500, 10000)), predicate, nontrivial)
+    details_stream(ctx, ctx.scale(800, 6000))
     ctx.extra["additive_flag"] = {str(k): sum(1 for it in items if it.cfg.get("additive") == k) for k in (None, True, False)}
 
 
